@@ -69,8 +69,13 @@ func czDirected(rng *rand.Rand) czCase {
 	default:
 		b.WriteString(loop())
 	}
+	anchors := []string{`\b`, `\B`, "$", `\z`, `\Z`, `\b`, `\B`, "$"}
 	for k := 1 + rng.Intn(3); k > 0; k-- {
-		b.WriteString(pick(conts))
+		if rng.Intn(3) == 0 {
+			b.WriteString(pick(anchors))
+		} else {
+			b.WriteString(pick(conts))
+		}
 	}
 	if rng.Intn(3) == 0 {
 		b.WriteString(pick([]string{"x", "a", `\n`, "(?<=a)", "b*"}))
@@ -406,6 +411,14 @@ func czCompare(cs *czCase, pp *czPrepared, answer string, o *core.Outcome) {
 	}
 	var alarms []string
 	other, rtlBody := false, false
+	// a KF2-shaped site loses the first success for the whole concatenation: the other sites pending at the
+	// same place for the same reason (why = 17) are collateral
+	kf2 := false
+	for _, e := range a.find("errs").args() {
+		if e.head() == "pending" && czKF2(pp.gt, pp.re2, e.args()[0], e.args()[1].int()) {
+			kf2 = true
+		}
+	}
 	for _, e := range a.find("errs").args() {
 		switch e.head() {
 		case "other":
@@ -425,6 +438,10 @@ func czCompare(cs *czCase, pp *czPrepared, answer string, o *core.Outcome) {
 			why := e.args()[1].int()
 			if czKF2(pp.gt, pp.re2, e.args()[0], why) {
 				o.Buckets = append(o.Buckets, "known-finding-KF2")
+				continue
+			}
+			if kf2 && why == 17 {
+				o.Buckets = append(o.Buckets, "known-finding-KF2(collateral-site)")
 				continue
 			}
 			o.Buckets = append(o.Buckets, fmt.Sprintf("not-certified:pending-%d", why))
